@@ -306,6 +306,12 @@ theorem setOption_ok (name : Str) (v : PyVal) : Ok (setOption name v) := by
   unfold setOption
   hoare
 
+theorem setOptionInDocument_ok (name : Str) (v : PyVal) : Ok (setOptionInDocument name v) := by
+  have h := setOption_ok
+  intro s hI
+  unfold setOptionInDocument
+  hoare
+
 theorem updateFrom_ok (o : RenderOptions) : Ok (updateFrom o) := by
   have h := setOption_ok
   intro s hI
@@ -345,7 +351,7 @@ theorem lineFilter_ok (d : LineDef) (mt : Match) (hm : mt.Of d.pat)
   have hrm := replaceMatch_ok rec env hs
   have hbs := blockSetDefinition_ok
   have hsl := slugify_ok
-  have hso := setOption_ok
+  have hso := setOptionInDocument_ok
   have hqs := quotesSetDefinition_ok
   have hstr : ∀ i, i ∈ Facts.lineFilterGroups d.filter → ∀ site s,
       ∃ a, (mt.str i site).run s = .ok (a, s) ∧ mt.res.group mt.inp i = some a := fun i hi => pc_str hm (hg i hi)
@@ -914,7 +920,7 @@ theorem documentLoop_ok (hsf : ∀ x, Pres Frame (rec.spans x)) : ∀ fuel r w, 
   | zero => intro r w s hI; unfold documentLoop; hoare
   | succ n ih => intro r w s hI; unfold documentLoop; hoare
 
-theorem documentRender_ok (hsf : ∀ x, Pres Frame (rec.spans x)) (fuel : Nat) (source : Str) (d : Nat) :
+theorem documentRender_ok (hsf : ∀ x, Pres Frame (rec.spans x)) (fuel : Nat) (source : Str) (d : Depth) :
     Ok (documentRender rec env fuel source d) := by
   have h := documentLoop_ok rec env hs hdoc hsf
   intro s hI
